@@ -136,4 +136,13 @@ MUTANTS = [
  {"id": "split-args-helper-no-zero-test", "kind": "break", "edits": [{"patch": "/verif/benign/h6-plist-1/patch.diff"}, ("src/plist.rs", "        if idx == 0 {\n            return None;\n        }\n        let rest = &bytes[idx..];", "        let rest = &bytes[idx..];")], "expect": ["D1-"]},
  {"id": "split-args-helper-from-line-start", "kind": "break", "edits": [{"patch": "/verif/benign/h6-plist-1/patch.diff"}, ("src/plist.rs", "        let rest = &bytes[idx..];", "        let rest = &bytes[idx / 2..];")], "expect": ["D1-"]},
  {"id": "split-args-helper-skips-to-last-blank", "kind": "break", "edits": [{"patch": "/verif/benign/h6-plist-1/patch.diff"}, ("src/plist.rs", "            .position(|c| !c.is_ascii_whitespace())\n            .map(|n| OsStr::from_bytes(&rest[n..]))", "            .rposition(|c| c.is_ascii_whitespace())\n            .map(|n| OsStr::from_bytes(&rest[n + 1..]))")], "expect": ["D1-"]},
+
+ # Plist::from_bytes as a loop over bytes.split(b'\n') skipping all-blank lines
+ {"id": "split-lines-benign", "kind": "benign", "edits": [{"patch": "/verif/benign/h7-plist-2/patch.diff"}]},
+ {"id": "split-lines-skips-any-blank", "kind": "break", "edits": [{"patch": "/verif/benign/h7-plist-2/patch.diff"}, ("src/plist.rs", "            if line.iter().all(|ch| ch.is_ascii_whitespace()) {", "            if line.iter().any(|ch| ch.is_ascii_whitespace()) {")], "expect": ["D3-LINE-GUARD"]},
+ {"id": "split-lines-only-empty-skipped", "kind": "break", "edits": [{"patch": "/verif/benign/h7-plist-2/patch.diff"}, ("src/plist.rs", "            if line.iter().all(|ch| ch.is_ascii_whitespace()) {", "            if line.is_empty() {")], "expect": ["D3-LINE-GUARD"]},
+ {"id": "split-lines-trimmed-line-parsed", "kind": "break", "edits": [{"patch": "/verif/benign/h7-plist-2/patch.diff"}, ("src/plist.rs", "            plist.entries.push(PlistEntry::from_bytes(line)?);", "            plist.entries.push(PlistEntry::from_bytes(line.trim_ascii())?);")], "expect": ["D2-PRODUCER"]},
+ {"id": "split-lines-also-at-cr", "kind": "break", "edits": [{"patch": "/verif/benign/h7-plist-2/patch.diff"}, ("src/plist.rs", "        for line in bytes.split(|&ch| ch == b'\\n') {", "        for line in bytes.split(|&ch| ch == b'\\n' || ch == b'\\r') {")], "expect": ["D3-TRANSFER"]},
+ {"id": "split-lines-bad-line-skipped", "kind": "break", "edits": [{"patch": "/verif/benign/h7-plist-2/patch.diff"}, ("src/plist.rs", "            plist.entries.push(PlistEntry::from_bytes(line)?);", "            if let Ok(e) = PlistEntry::from_bytes(line) {\n                plist.entries.push(e);\n            }")], "expect": ["D"]},
+ {"id": "split-lines-reversed", "kind": "break", "edits": [{"patch": "/verif/benign/h7-plist-2/patch.diff"}, ("src/plist.rs", "        for line in bytes.split(|&ch| ch == b'\\n') {", "        for line in bytes.rsplit(|&ch| ch == b'\\n') {")], "expect": ["D"]},
 ]
